@@ -1653,6 +1653,29 @@ pub struct H2FlowControl {
     pub pending_window_updates: HashMap<u32, u32>,
 }
 
+/// Capacity of [`ConnectionH2::zero_out`]: room for a WINDOW_UPDATE per
+/// pending entry at the default stream limit, next to the few other control
+/// frames that can be queued at once.
+const CONTROL_FRAME_BUFFER_SIZE: usize = 8192;
+
+/// Backing storage of [`ConnectionH2::zero_out`].
+pub struct ControlFrameBuffer(Box<[u8]>);
+
+impl ControlFrameBuffer {
+    fn new() -> Self {
+        Self(vec![0; CONTROL_FRAME_BUFFER_SIZE].into_boxed_slice())
+    }
+}
+
+impl kawa::AsBuffer for ControlFrameBuffer {
+    fn as_buffer(&self) -> &[u8] {
+        &self.0
+    }
+    fn as_mut_buffer(&mut self) -> &mut [u8] {
+        &mut self.0
+    }
+}
+
 /// Byte accounting for connection overhead attribution.
 pub struct H2ByteAccounting {
     /// Bytes read on the zero stream not yet attributed to a stream.
@@ -1730,7 +1753,14 @@ pub struct ConnectionH2<Front: SocketHandler> {
     pub cookie_buf: Vec<u8>,
     /// Connection draining state for graceful shutdown.
     pub drain: H2DrainState,
+    /// Inbound scratch buffer: frame headers and the payload of control and
+    /// HEADERS frames are read into it and parsed from it.
     pub zero: GenericHttpStream,
+    /// Outbound control frames (SETTINGS, SETTINGS ACK, PING reply, GOAWAY,
+    /// WINDOW_UPDATE, RST_STREAM) wait here until they are written. Kept apart
+    /// from `zero`: bytes being received and bytes being sent must never sit
+    /// in the same buffer, or one side overwrites or parses the other.
+    pub zero_out: kawa::Kawa<ControlFrameBuffer>,
     /// Byte accounting for connection overhead attribution.
     pub bytes: H2ByteAccounting,
     /// Flood detector for CVE mitigations (Rapid Reset, CONTINUATION, Ping, Settings floods).
@@ -1876,7 +1906,7 @@ impl<Front: SocketHandler> ConnectionH2<Front> {
             && matches!(self.state, H2State::GoAway | H2State::Error)
             && self.streams.is_empty()
             && self.expect_write.is_none()
-            && self.zero.storage.is_empty()
+            && self.zero_out.storage.is_empty()
     }
 
     /// Shared constructor for both server and client H2 connections.
@@ -1945,6 +1975,10 @@ impl<Front: SocketHandler> ConnectionH2<Front> {
                 graceful_shutdown_deadline,
             },
             zero: kawa::Kawa::new(kawa::Kind::Request, kawa::Buffer::new(buffer)),
+            zero_out: kawa::Kawa::new(
+                kawa::Kind::Request,
+                kawa::Buffer::new(ControlFrameBuffer::new()),
+            ),
             bytes: H2ByteAccounting {
                 zero_bytes_read: 0,
                 overhead_bin: 0,
@@ -2566,7 +2600,7 @@ impl<Front: SocketHandler> ConnectionH2<Front> {
                     }
                     Err(_) => return self.force_disconnect(),
                 };
-                let kawa = &mut self.zero;
+                let kawa = &mut self.zero_out;
                 match serializer::gen_settings(kawa.storage.space(), &self.local_settings) {
                     Ok((_, size)) => {
                         kawa.storage.fill(size);
@@ -3587,7 +3621,7 @@ impl<Front: SocketHandler> ConnectionH2<Front> {
     fn flush_pending_control_frames(&mut self) -> Option<MuxResult> {
         if self.frontend_hung_up_while_draining() {
             self.expect_write = None;
-            self.zero.storage.clear();
+            self.zero_out.storage.clear();
             self.flow_control.pending_window_updates.clear();
             self.pending_rst_streams.clear();
         }
@@ -3627,8 +3661,7 @@ impl<Front: SocketHandler> ConnectionH2<Front> {
         // iterations that could cause response data to be sent before
         // subsequent frames are validated.
         if !self.flow_control.pending_window_updates.is_empty() && self.expect_write.is_none() {
-            let kawa = &mut self.zero;
-            kawa.storage.clear();
+            let kawa = &mut self.zero_out;
             let buf = kawa.storage.space();
             let mut offset = 0;
             // Track which entries we successfully serialized so we can remove them.
@@ -3690,8 +3723,7 @@ impl<Front: SocketHandler> ConnectionH2<Front> {
         // this drain only serialises and flushes — no metric/flood calls
         // here would double-count.
         if !self.pending_rst_streams.is_empty() && self.expect_write.is_none() {
-            let kawa = &mut self.zero;
-            kawa.storage.clear();
+            let kawa = &mut self.zero_out;
             let buf = kawa.storage.space();
             let mut offset = 0;
             let mut written_count = 0;
@@ -3796,7 +3828,7 @@ impl<Front: SocketHandler> ConnectionH2<Front> {
             (H2State::ClientPreface, Position::Client(..)) => {
                 trace!("{} Preparing preface and settings", log_context!(self));
                 let pri = serializer::H2_PRI.as_bytes();
-                let kawa = &mut self.zero;
+                let kawa = &mut self.zero_out;
 
                 kawa.storage.space()[0..pri.len()].copy_from_slice(pri);
                 kawa.storage.fill(pri.len());
@@ -4611,7 +4643,7 @@ impl<Front: SocketHandler> ConnectionH2<Front> {
         // the elapsed check is still true, and we emit another
         // `warn!` + `goaway()` pair, each bumping `h2.goaway.sent.*`.
         self.settings_sent_at = None;
-        let kawa = &mut self.zero;
+        let kawa = &mut self.zero_out;
         kawa.storage.clear();
         // Severity tiering: only `InternalError` implies a sozu-side bug when
         // WE emit it. Every other non-`NoError` reason is "peer misbehaved,
@@ -4676,10 +4708,7 @@ impl<Front: SocketHandler> ConnectionH2<Front> {
         // Keep expect_read as-is: existing streams should continue reading
         // data during the drain window opened by the initial GOAWAY. Only
         // the final GOAWAY (via `goaway()`) removes READABLE.
-        let kawa = &mut self.zero;
-        if !self.zero_flush_deferred {
-            kawa.storage.clear();
-        }
+        let kawa = &mut self.zero_out;
         debug!(
             "{} GOAWAY (graceful, initial): last_stream_id=0x7FFFFFFF",
             log_context!(self)
@@ -4750,7 +4779,7 @@ impl<Front: SocketHandler> ConnectionH2<Front> {
             return false;
         }
         self.expect_write.is_some()
-            || !self.zero.storage.is_empty()
+            || !self.zero_out.storage.is_empty()
             || self.socket.socket_wants_write()
     }
 
@@ -4812,8 +4841,8 @@ impl<Front: SocketHandler> ConnectionH2<Front> {
     /// meaning the caller should stop writing and wait for the next writable event.
     /// Returns `false` when the buffer has been fully drained.
     fn flush_zero_to_socket(&mut self) -> bool {
-        while !self.zero.storage.is_empty() {
-            let (size, status) = self.socket.socket_write(self.zero.storage.data());
+        while !self.zero_out.storage.is_empty() {
+            let (size, status) = self.socket.socket_write(self.zero_out.storage.data());
             #[cfg(debug_assertions)]
             trace!(
                 "{} flush_zero_to_socket: written={}, status={:?}, wants_write={}",
@@ -4822,7 +4851,7 @@ impl<Front: SocketHandler> ConnectionH2<Front> {
                 status,
                 self.socket.socket_wants_write()
             );
-            self.zero.storage.consume(size);
+            self.zero_out.storage.consume(size);
             self.position.count_bytes_out_counter(size);
             self.bytes.overhead_bout += size;
             if update_readiness_after_write(size, status, &mut self.readiness) {
@@ -4831,7 +4860,7 @@ impl<Front: SocketHandler> ConnectionH2<Front> {
         }
         // Reset buffer positions after draining. consume() advances start but
         // never resets it, so without clear() the next fill would panic.
-        self.zero.storage.clear();
+        self.zero_out.storage.clear();
         false
     }
 
@@ -5828,7 +5857,7 @@ impl<Front: SocketHandler> ConnectionH2<Front> {
             // from the peer (RFC 9113 §6.9).
         }
 
-        let kawa = &mut self.zero;
+        let kawa = &mut self.zero_out;
         let ack = &serializer::SETTINGS_ACKNOWLEDGEMENT;
         let buf = kawa.storage.space();
         if buf.len() < ack.len() {
@@ -5875,7 +5904,7 @@ impl<Front: SocketHandler> ConnectionH2<Front> {
         );
         check_flood_or_return!(self);
         self.attribute_bytes_to_overhead();
-        let kawa = &mut self.zero;
+        let kawa = &mut self.zero_out;
         let ping_response_size = serializer::PING_ACKNOWLEDGEMENT_HEADER.len() + 8;
         if kawa.storage.space().len() < ping_response_size {
             error!(
@@ -6511,7 +6540,7 @@ impl<Front: SocketHandler> ConnectionH2<Front> {
                     let fully_completed =
                         stream.back_received_end_of_stream && stream.front.is_terminated();
                     if !fully_completed && !self.rst_sent.contains(&id) {
-                        let kawa = &mut self.zero;
+                        let kawa = &mut self.zero_out;
                         let mut frame = [0; 13];
                         if let Ok((_, _size)) =
                             serializer::gen_rst_stream(&mut frame, id, H2Error::Cancel)
@@ -6522,6 +6551,7 @@ impl<Front: SocketHandler> ConnectionH2<Front> {
                                 kawa.storage.fill(frame.len());
                                 incr!(names::h2::FRAMES_TX_RST_STREAM);
                                 count!(metric_for_rst_stream_sent(H2Error::Cancel), 1);
+                                self.schedule_zero_flush();
                                 self.readiness.arm_writable();
                                 self.rst_sent.insert(id);
                             }
